@@ -219,7 +219,12 @@ func run(sc *scenario) (string, outcome) {
 				for k, o := range script {
 					var err error
 					h := hots[wi][o.idx]
-					h.seq.Add(1) // odd: an update of this range is in flight
+					// a call that changes nothing - Add of a range that is there, Remove of one that is not - is no update:
+					// the range is what it was before, during and after the call, and lookups must say so throughout
+					redundant := h.present.Load() == o.add
+					if !redundant {
+						h.seq.Add(1) // odd: an update of this range is in flight
+					}
 					n := ipnet(o.p)
 					if o.wide {
 						n = ipnetWide(o.p)
@@ -237,11 +242,15 @@ func run(sc *scenario) (string, outcome) {
 					if o.wide && errors.Is(err, netutil.ErrInvalidIPv4CIDR) {
 						// rejected spelling: the call changed nothing, the range is what it was
 						script[k].rejected, err = true, nil
-						h.seq.Add(1)
+						if !redundant {
+							h.seq.Add(1)
+						}
 						continue
 					}
 					h.present.Store(o.add)
-					h.seq.Add(1) // even again: stable until the next update
+					if !redundant {
+						h.seq.Add(1) // even again: stable until the next update
+					}
 					// read your own writes: this goroutine is the only one that ever touches this range, so right after
 					// its call returned a lookup must see the new state, whatever the readers are doing meanwhile
 					own := o.p.net | (uint32(k) & ^mask(o.p.ones) & 1)
